@@ -25,7 +25,10 @@ def parse(log):
 logs = [parse(l) for l in ("/verif/seeded/_logs/eval.log", "/verif/seeded/_logs/eval_frozen.log",
                             "/verif/seeded/_logs/eval_live.log", "/verif/seeded/_logs/eval_final.log",
                             "/verif/seeded/_logs/eval_extra.log", "/verif/seeded/_logs/eval_r3.log",
-                            "/verif/seeded/_logs/eval_extra2.log")]
+                            "/verif/seeded/_logs/eval_extra2.log", "/verif/seeded/_logs/eval_r4.log",
+                            # complete re-evaluation against the final machinery and /repo HEAD
+                            "/verif/seeded/_logs/eval_final2a.log", "/verif/seeded/_logs/eval_final2b.log",
+                            "/verif/seeded/_logs/eval_final3.log")]
 first, final = {}, {}
 for lg in logs:
     for k, v in lg.items():
@@ -53,6 +56,10 @@ for d in sorted(glob.glob("/verif/seeded/C*-*")):
             "ran": "tools/eval_seeded.sh %s %s: scratch worktree of /repo HEAD, git apply patch.diff, demo with/without, "
                    "existing suite, then the property's quick check with NIXPY_REPO pointing at the worktree" % tuple(sid.split("-")),
             "first_evaluation": f0.get("checks"), "after_strengthening": f1.get("checks")}
+    if os.path.exists(os.path.join(d, "patch.orig.diff")):
+        meta["rebased"] = ("patch.orig.diff is the change as delivered; it stopped applying after later fix commits in "
+                           "/repo touched the same lines (delete_all / container deletion), so patch.diff is the same "
+                           "edit carried over by hand to /repo HEAD and re-confirmed (demo, suite, check)")
     json.dump(meta, open(os.path.join(d, "meta.json"), "w"), indent=1)
     def verdict(cs):
         if not cs:
